@@ -10,7 +10,7 @@ ENGINES = [
 CHECKS = {}
 
 
-def bus(prop, quick_args, thorough_args, qd=200, td=3600, variant="plain"):
+def bus(prop, quick_args, thorough_args, qd=300, td=3600, variant="plain"):
     return {
         "harness": "busmc", "sources": SRC, "deps": DEPS, "variant": variant,
         "quick": {"parts": 16, "args": ["--prop", prop] + quick_args, "deadline": qd,
